@@ -106,14 +106,32 @@ constexpr parser nest(
     )
 );
 
+// statements with a right-recursive error rule and a nullable list: several recoveries can be alive on the stack at once, which is what fills the fixed
+// stacks of a cstring_buffer<N> parse to the last slot (for the `cstr` target)
+constexpr nterm<int> c_stmt("stmt"), c_stmts("stmts");
+constexpr parser rec(
+    c_stmt,
+    terms('i', '(', ')', '{', '}', 'x', ';'),
+    nterms(c_stmt, c_stmts),
+    rules(
+        c_stmt('x', ';') >= val(1),
+        c_stmt('i', '(', 'x', ')', c_stmt) >= [](skip, skip, skip, skip, int s) { return (2 * s + 1) % 100003; },
+        c_stmt('i', '(', error, ')', c_stmt) >= [](skip, skip, skip, skip, int s) { return (3 * s + 2) % 100003; },
+        c_stmt('{', c_stmts, '}') >= [](skip, int s, skip) { return (s + 7) % 100003; },
+        c_stmts() >= val(0),
+        c_stmts(c_stmts, c_stmt) >= [](int a, int b) { return (5 * a + b) % 100003; }
+    )
+);
+
 // standalone matchers
 constexpr char m0[] = "[1-9][0-9]*"; constexpr char m1[] = "(a|b)*"; constexpr char m2[] = "a|bc*"; constexpr char m3[] = "[a-zA-Z_][a-zA-Z_0-9]*";
 constexpr char m4[] = "a{5}"; constexpr char m5[] = "[^a-z]"; constexpr char m6[] = "."; constexpr char m7[] = R"(\x00|\xff)"; constexpr char m8[] = "0|[1-9][0-9]*";
 constexpr char m9[] = "a*b|a*"; constexpr char m10[] = "ab"; constexpr char m11[] = R"("([^\\"]|\\.)*")"; constexpr char m12[] = "(ab|cd)+e?"; constexpr char m13[] = "[--Z-]";
 constexpr char m14[] = "[0-9]+ [a-z]+"; constexpr char m15[] = R"("[\x20-\x21\x23-\xff]*")"; constexpr char m16[] = R"([\x7e-\x81]+x{2})"; constexpr char m17[] = R"(\x2b\x3D= =)";
+constexpr char m18[] = "(ab|c){3}d"; constexpr char m19[] = "[0-9]{4}(-[0-9]{2}){2}";        // a repeated GROUP (inner states have transitions of their own)
 constexpr regex::expr<m0> r0; constexpr regex::expr<m1> r1; constexpr regex::expr<m2> r2; constexpr regex::expr<m3> r3; constexpr regex::expr<m4> r4; constexpr regex::expr<m5> r5; constexpr regex::expr<m6> r6;
 constexpr regex::expr<m7> r7; constexpr regex::expr<m8> r8; constexpr regex::expr<m9> r9; constexpr regex::expr<m10> r10; constexpr regex::expr<m11> r11; constexpr regex::expr<m12> r12; constexpr regex::expr<m13> r13;
-constexpr regex::expr<m14> r14; constexpr regex::expr<m15> r15; constexpr regex::expr<m16> r16; constexpr regex::expr<m17> r17;
+constexpr regex::expr<m14> r14; constexpr regex::expr<m15> r15; constexpr regex::expr<m16> r16; constexpr regex::expr<m17> r17; constexpr regex::expr<m18> r18; constexpr regex::expr<m19> r19;
 }
 
 // ------------------------------------------------------------------------------------------------- statistics
@@ -155,6 +173,18 @@ static Out run_one(const Parser& p, const Buffer& b, parse_options opts)
     catch (const std::exception& e) { o.threw = true; o.exc = e.what(); }
     o.err = os.str();
     return o;
+}
+
+template<size_t N> static Out cstr_run_n(const std::string& text, parse_options opts)
+{
+    // the array is exactly N + 1 bytes on the heap so that reads past it are visible to ASan
+    std::unique_ptr<char[]> arr(new char[N + 1]); for (size_t i = 0; i < N; ++i) arr[i] = text[i]; arr[N] = 0;
+    return run_one(P::rec, cstring_buffer<N + 1>(*reinterpret_cast<const char(*)[N + 1]>(arr.get())), opts);
+}
+template<size_t N> static Out cstr_run(const std::string& text, parse_options opts)
+{
+    if constexpr (N > 28) { (void)text; (void)opts; return Out{}; }
+    else { if (text.size() == N || (N == 1 && text.empty())) return text.empty() ? run_one(P::rec, cstring_buffer<1>(""), opts) : cstr_run_n<N>(text, opts); return cstr_run<N + 1>(text, opts); }
 }
 
 template<class Parser>
@@ -231,7 +261,7 @@ static NestRef nest_ref(const std::string& in, bool skip_ws, bool skip_nl)
 // reference automata for the compiled patterns of the `match` target (built once at start-up); a pattern whose pinned construction is
 // known to differ from the reference (finding F5) is compared with the model of that construction instead
 struct MatchRef { rx::Dfa dfa; bool uses_model = false; };
-static const char* const match_patterns[18] = {P::m0, P::m1, P::m2, P::m3, P::m4, P::m5, P::m6, P::m7, P::m8, P::m9, P::m10, P::m11, P::m12, P::m13, P::m14, P::m15, P::m16, P::m17};
+static const char* const match_patterns[20] = {P::m0, P::m1, P::m2, P::m3, P::m4, P::m5, P::m6, P::m7, P::m8, P::m9, P::m10, P::m11, P::m12, P::m13, P::m14, P::m15, P::m16, P::m17, P::m18, P::m19};
 static std::vector<MatchRef>& match_refs()
 {
     static std::vector<MatchRef> v = []
@@ -322,10 +352,36 @@ extern "C" int LLVMFuzzerTestOneInput(const uint8_t* data, size_t size)
         if (a.has && r.max_depth >= 341) st.labels["accepted-deep"]++;
         if (text.size() > 65536) st.labels[a.has ? "accepted-longer-than-64KiB" : "longer-than-64KiB"]++;
     }
+    else if (t == "cstr")
+    {
+        // bytes -> a short text over the grammar's alphabet; parsed through string_buffer (growing stacks) and through cstring_buffer<N> (fixed stacks of
+        // N + EmptyRulesCount + 1 entries). A fixed stack that is too small must end the parse with the capacity exception (a clean failure; that inputs in the
+        // language can run into it is known finding F11), never with a write past the stack (UBSan/ASan) or a different result.
+        std::string text; for (size_t i = 1; i < size && text.size() < 28; ++i) text += "i(){}x; i(x"[data[i] % 11];
+        parse_options opts; opts.set_skip_whitespace(!(sel & 1));
+        Out a = run_one(P::rec, string_buffer(std::string(text)), opts);
+        Out c = cstr_run<1>(text, opts);
+        FStats& st = fstats();
+        if (c.threw)
+        {
+            if (c.exc.find("out of range") == std::string::npos) violation("cstring_buffer parse ended with an exception other than the capacity exception: " + c.exc, text);
+            st.labels["cstring-capacity-exception"]++;
+        }
+        else
+        {
+            if (a.threw) violation("string_buffer parse threw: " + a.exc, text);
+            if (a.has != c.has || (a.has && a.value != c.value) || a.err != c.err) violation("cstring_buffer and string_buffer parses of the same text differ (result or error stream)", text);
+            if (!a.err.empty() && a.has) st.labels["recovered"]++;
+        }
+        if (std::count(a.err.begin(), a.err.end(), '\n') >= 2) st.labels["several-syntax-errors"]++;
+        // non-trivial = the text has >= 4 terms and was either accepted or reported a syntax error beyond the second column
+        if (text.size() >= 4 && st.nontrivial.size() < 3000000 && st.nontrivial.insert(eng::hcomb(eng::hstr(text), sel & 1)).second) { st.labels[c.threw ? "nt-capacity" : a.has ? "nt-accepted" : "nt-rejected"]++; if (st.samples.size() < 4) st.samples.push_back(text); }
+    }
     else if (t == "match")
     {
-        switch (sel % 18)
+        switch (sel % 20)
         {
+        case 18: match_one(P::r18, in, (sel & 128) != 0, 18); break; case 19: match_one(P::r19, in, (sel & 128) != 0, 19); break;
         case 14: match_one(P::r14, in, (sel & 128) != 0, 14); break; case 15: match_one(P::r15, in, (sel & 128) != 0, 15); break; case 16: match_one(P::r16, in, (sel & 128) != 0, 16); break; case 17: match_one(P::r17, in, (sel & 128) != 0, 17); break;
         case 0: match_one(P::r0, in, (sel & 128) != 0, 0); break; case 1: match_one(P::r1, in, (sel & 128) != 0, 1); break; case 2: match_one(P::r2, in, (sel & 128) != 0, 2); break; case 3: match_one(P::r3, in, (sel & 128) != 0, 3); break;
         case 4: match_one(P::r4, in, (sel & 128) != 0, 4); break; case 5: match_one(P::r5, in, (sel & 128) != 0, 5); break; case 6: match_one(P::r6, in, (sel & 128) != 0, 6); break; case 7: match_one(P::r7, in, (sel & 128) != 0, 7); break;
